@@ -62,3 +62,58 @@ Print Assumptions C01_parse_name_nul_refuted.
 Theorem C01_examples : parse_examples_ok = true.
 Proof. exact parse_examples. Qed.
 Print Assumptions C01_examples.
+
+(* ---- parse_valid: the end-to-end statement (syntax trees: TokSyntax.v, proofs: TokValid*.v) ---- *)
+From JC Require Import TokSyntax TokValid.
+
+(* for every syntax tree of the sub-grammar [covered] (by now: every RFC 8259 tree, see
+   C01_parse_valid below): parsing its rendering, NUL-terminated, in default or strict mode,
+   returns exactly the denoted value, reports success and consumes exactly the text *)
+Theorem C01_parse_valid_covered : forall sb D strictf s lead trail t,
+  wf_stx s -> all_ws lead = true -> all_ws trail = true -> covered s = true ->
+  Z.of_nat (nest s) < D -> ints_in_range s = true -> names_nul_free s = true ->
+  tok_new D strictf false false = Some t ->
+  exists t', parse_ex_cstr sb t (render_doc lead s trail) = PR t' (Some (value sb s)) /\
+             err t' = TE_success /\ char_offset t' = zlen (render_doc lead s trail).
+Proof. exact parse_valid_covered. Qed.
+Print Assumptions C01_parse_valid_covered.
+
+(* unrestricted: all literals, numbers (integers exact, fraction/exponent tokens = the
+   strtod oracle on the token, retained as text), strings (every escape form, surrogate
+   pairs combined, unpaired surrogates replaced), arrays, objects (first-occurrence order,
+   last duplicate's value), any blanks, any nesting below the configured depth.
+   Outside the quantifier, with the refutations above: integer tokens beyond 64 bits and
+   member names containing U+0000. *)
+Theorem C01_parse_valid : forall sb D strictf s lead trail t,
+  wf_stx s -> all_ws lead = true -> all_ws trail = true ->
+  Z.of_nat (nest s) < D -> ints_in_range s = true -> names_nul_free s = true ->
+  tok_new D strictf false false = Some t ->
+  exists t', parse_ex_cstr sb t (render_doc lead s trail) = PR t' (Some (value sb s)) /\
+             err t' = TE_success /\ char_offset t' = zlen (render_doc lead s trail).
+Proof. exact parse_valid. Qed.
+Print Assumptions C01_parse_valid.
+
+Theorem C01_covered_all : forall s, covered s = true.
+Proof. exact covered_all. Qed.
+Print Assumptions C01_covered_all.
+
+(* non-vacuity: a tree using every constructor meets the hypotheses and evaluates as stated *)
+Theorem C01_parse_valid_example : parse_valid_example_ok = true.
+Proof. exact parse_valid_example. Qed.
+Print Assumptions C01_parse_valid_example.
+
+(* the other half (shared with C15): a valid text whose nesting does not fit the configured
+   depth is refused with json_tokener_error_depth, in both modes *)
+From JC Require Import TokDepth.
+Theorem C01_parse_depth : forall sb D strictf s lead trail t,
+  wf_stx s -> all_ws lead = true -> all_ws trail = true ->
+  ints_in_range s = true -> names_nul_free s = true ->
+  D <= Z.of_nat (nest s) ->
+  tok_new D strictf false false = Some t ->
+  exists t', parse_ex_cstr sb t (render_doc lead s trail) = PR t' None /\ err t' = TE_depth.
+Proof. exact parse_depth. Qed.
+Print Assumptions C01_parse_depth.
+
+Theorem C01_parse_depth_example : parse_depth_example_ok = true.
+Proof. exact parse_depth_example. Qed.
+Print Assumptions C01_parse_depth_example.
